@@ -1,6 +1,7 @@
 package rules
 
 import (
+	"go/types"
 	"fmt"
 	"go/token"
 	"strings"
@@ -86,6 +87,30 @@ func appendSites(f *ssa.Function, acc ssa.Value) []*ssa.Call {
 			if core.CalleeName(x.Common()) == "builtin.append" {
 				grow(x.Common().Args[0])
 			}
+			// an accumulator threaded through a private helper: acc = helper(…, acc)
+			if pr := core.Active; pr != nil {
+				if h := x.Common().StaticCallee(); pr.PrivateHelper(h) && h.Signature.Results().Len() == 1 {
+					for _, r := range core.Returns(h) {
+						for _, o := range core.ReturnOperand(r, 0) {
+							grow(o)
+						}
+					}
+				}
+			}
+		case *ssa.Parameter:
+			if pr := core.Active; pr != nil && pr.PrivateHelper(x.Parent()) {
+				if _, isSlice := x.Type().Underlying().(*types.Slice); isSlice {
+					for i, q := range x.Parent().Params {
+						if q == x {
+							for _, site := range pr.Callers(x.Parent()) {
+								if i < len(site.Common().Args) {
+									grow(site.Common().Args[i])
+								}
+							}
+						}
+					}
+				}
+			}
 		case *ssa.UnOp:
 			if al, ok := x.X.(*ssa.Alloc); ok {
 				for _, ref := range *al.Referrers() {
@@ -116,7 +141,17 @@ func runUnsat(c *Ctx) {
 	if gb == nil || ib == nil || fb == nil || res == nil || exec == nil {
 		return
 	}
+	// the function that builds the error: the graph builder itself or one of its private steps
+	uf := gb
 	lit, fields := errLiteral(gb)
+	if lit == nil {
+		for _, g := range p.Region(gb) {
+			if l2, f2 := errLiteral(g); l2 != nil {
+				lit, fields, uf = l2, f2, g
+			}
+		}
+	}
+	c.R.Func(core.FuncName(uf))
 	if lit == nil {
 		c.R.Add("UNSAT-U1", "graphBuilder|error-literal", "graphBuilder", p.Pos(gb.Pos()), false, "the graph builder reports pruned requirements with the dedicated error type", "no ErrArgumentUnsatisfied literal in the graph builder")
 		return
@@ -129,7 +164,7 @@ func runUnsat(c *Ctx) {
 
 	// ---- U1: every success return is dominated by len(unsatisfied) > 0 being false
 	nSucc := 0
-	for _, r := range core.Returns(gb) {
+	for _, r := range core.Returns(uf) {
 		ev := r.Results[len(r.Results)-1]
 		lits := core.Lits(core.Guards(r.Block()))
 		isErrRet := false
@@ -149,9 +184,34 @@ func runUnsat(c *Ctx) {
 		c.R.Add("UNSAT-U1", fmt.Sprintf("graphBuilder|success-return#%d", nSucc), "graphBuilder", p.InstrPos(r), ok,
 			"the graph builder returns without error only where the list of unsatisfied requirements is empty", ternary(ok, "dominated by len(unsatisfied)==0", "not dominated by the emptiness check"), core.LitStrings(lits)...)
 	}
+	if uf != gb {
+		// the step's verdict is the graph builder's verdict: every return of the graph builder is an earlier error
+		// return or hands back exactly what the step returned
+		for _, r := range core.Returns(gb) {
+			ev := r.Results[len(r.Results)-1]
+			lits := core.Lits(core.Guards(r.Block()))
+			if nilCheckLit(lits, ev, false) {
+				continue
+			}
+			nSucc++
+			ok := false
+			srcs := core.Sources(ev)
+			if len(srcs) > 0 {
+				ok = true
+				for _, sv := range srcs {
+					cl, isC := sv.(*ssa.Call)
+					if !isC || cl.Common().StaticCallee() != uf {
+						ok = false
+					}
+				}
+			}
+			c.R.Add("UNSAT-U1", fmt.Sprintf("graphBuilder|success-return#%d", nSucc), "graphBuilder", p.InstrPos(r), ok,
+				"the graph builder returns without error only where the list of unsatisfied requirements is empty", ternary(ok, "returns the verdict of "+core.FuncName(uf), "a return bypasses the unsatisfied-requirements check"), core.LitStrings(lits)...)
+		}
+	}
 	// the error return is on the non-empty branch and returns the literal
 	errRetOK := false
-	for _, r := range core.Returns(gb) {
+	for _, r := range core.Returns(uf) {
 		ev := r.Results[len(r.Results)-1]
 		for _, s := range core.Sources(ev) {
 			if core.Strip(s) == ssa.Value(lit) && lenPositive(core.Lits(core.Guards(r.Block())), unsat, true) {
@@ -168,9 +228,9 @@ func runUnsat(c *Ctx) {
 			targetVertex = ci.(*ssa.Call)
 		}
 	}
-	var removes []ssa.CallInstruction = core.Calls(gb, core.GRemove)
-	dfsCalls := core.Calls(gb, core.GDFS)
-	for i, ap := range appendSites(gb, unsat) {
+	var removes []ssa.CallInstruction = p.RegionCalls(gb, core.GRemove)
+	dfsCalls := p.RegionCalls(gb, core.GDFS)
+	for i, ap := range appendSites(uf, unsat) {
 		key := fmt.Sprintf("graphBuilder|append#%d", i+1)
 		pos := p.InstrPos(ap)
 		elems := appendedValues(ap)
@@ -183,7 +243,7 @@ func runUnsat(c *Ctx) {
 		}
 		var reqList *ssa.Call
 		if req != nil {
-			if r, ok := core.Root(req).(*ssa.Call); ok && core.CalleeName(r.Common()) == core.GOutEdges && targetVertex != nil && sameVal(r.Common().Args[1], targetVertex) {
+			if r, ok := p.Bind(core.Root(req)).(*ssa.Call); ok && core.CalleeName(r.Common()) == core.GOutEdges && targetVertex != nil && sameVal(r.Common().Args[1], targetVertex) {
 				reqList, fromReq = r, true
 			}
 		}
@@ -192,12 +252,12 @@ func runUnsat(c *Ctx) {
 		captured := reqList != nil
 		if reqList != nil {
 			for _, rm := range removes {
-				if !core.InstrDominates(reqList, rm) {
+				if !p.IDominates(reqList, rm, gb) {
 					captured = false
 				}
 			}
 			for _, d := range dfsCalls {
-				if !core.InstrDominates(reqList, d) {
+				if !p.IDominates(reqList, d, gb) {
 					captured = false
 				}
 			}
@@ -267,7 +327,7 @@ func runUnsat(c *Ctx) {
 		if rv, ok := d.Common().Args[0].(*ssa.Call); ok && core.CalleeName(rv.Common()) == core.GReverse {
 			onRev = true
 		}
-		rootV := d.Common().Args[1]
+		rootV := p.Bind(d.Common().Args[1])
 		rootKinds := p.KindOf(rootV)
 		k, _ := p.VertexKinds()
 		fromRoot := k != nil && len(rootKinds) == 1 && rootKinds[0] == k.Root
@@ -303,10 +363,10 @@ func runUnsat(c *Ctx) {
 								if y == ssa.Value(cb.Params[0]) {
 									o = x
 								}
-								if d := p.DerefFree(o); d != nil && targetVertex != nil && d == targetVertex {
+								if d := p.DerefFree(o); d != nil && targetVertex != nil && p.Bind(core.Strip(d)) == targetVertex {
 									stopOK = true
 								} else if fv, ok := o.(*ssa.FreeVar); ok {
-									if b := p.Binding(fv); b == targetVertex {
+									if b := p.Binding(fv); b != nil && p.Bind(core.Strip(b)) == targetVertex {
 										stopOK = true
 									}
 								}
@@ -333,14 +393,14 @@ func runUnsat(c *Ctx) {
 	u4 := false
 	why4 := "Inputs not set"
 	if inputs != nil && ibCall != nil {
-		aps := appendSites(gb, inputs)
+		aps := appendSites(uf, inputs)
 		why4 = fmt.Sprintf("%d append site(s)", len(aps))
 		for _, ap := range aps {
 			for _, e := range appendedValues(ap) {
 				{
 					vx := c.vertexOfValue(e)
 					if vx != nil {
-						if r, ok := core.Root(vx).(*ssa.Extract); ok && r.Tuple == ssa.Value(ibCall) && r.Index == 0 {
+						if r, ok := p.Bind(core.Root(vx)).(*ssa.Extract); ok && r.Tuple == ssa.Value(ibCall) && r.Index == 0 {
 							extra := ""
 							for _, l := range core.Lits(core.Guards(ap.Block())) {
 								switch {
@@ -363,13 +423,13 @@ func runUnsat(c *Ctx) {
 	c.R.Add("UNSAT-U4", "graphBuilder|inputs-complete", "graphBuilder", p.InstrPos(lit), u4, "the error's input list is built from every supplied input vertex, unfiltered", why4)
 
 	// ---- U5: literal fields
-	c.R.Add("UNSAT-U5", "literal|Func", "graphBuilder", p.InstrPos(lit), fields["Func"] == ssa.Value(gb.Params[0]), "the error names the target function", fmt.Sprintf("set=%v", fields["Func"] != nil))
+	c.R.Add("UNSAT-U5", "literal|Func", "graphBuilder", p.InstrPos(lit), fields["Func"] != nil && p.Bind(fields["Func"]) == ssa.Value(gb.Params[0]), "the error names the target function", fmt.Sprintf("set=%v", fields["Func"] != nil))
 	c.R.Add("UNSAT-U5", "literal|Args", "graphBuilder", p.InstrPos(lit), fields["Args"] != nil, "the error carries the missing arguments", fmt.Sprintf("set=%v", fields["Args"] != nil))
 	c.R.Add("UNSAT-U5", "literal|Inputs", "graphBuilder", p.InstrPos(lit), fields["Inputs"] != nil, "the error carries the supplied inputs", fmt.Sprintf("set=%v", fields["Inputs"] != nil))
 	convOK := false
 	if cv := fields["Converters"]; cv != nil && ibCall != nil {
 		for _, s := range core.Sources(cv) {
-			if e, ok := s.(*ssa.Extract); ok && e.Tuple == ssa.Value(ibCall) && e.Index == 1 {
+			if e, ok := p.Bind(s).(*ssa.Extract); ok && e.Tuple == ssa.Value(ibCall) && e.Index == 1 {
 				convOK = true
 			}
 		}
@@ -386,7 +446,10 @@ func runUnsat(c *Ctx) {
 			if len(r.Results) == 3 && !core.IsNilConst(r.Results[2]) {
 				continue // error return
 			}
-			for _, s := range core.Sources(r.Results[1]) {
+			for _, s := range p.ISources(r.Results[1]) {
+				if core.IsNilConst(s) {
+					continue // the error return of a step helper
+				}
 				if !c.containsSuppliedConvs(ib, s, r) {
 					okAll = false
 					why = "returned converter list " + core.Path(s) + " does not provably contain the builder's supplied converters"
@@ -395,7 +458,7 @@ func runUnsat(c *Ctx) {
 		}
 		// every generated converter is appended to it
 		genOK := true
-		for _, ci := range core.Calls(ib) {
+		for _, ci := range p.RegionCalls(ib) {
 			cc := ci.Common()
 			if !cc.IsInvoke() && cc.StaticCallee() == nil && core.TypeStr(cc.Value.Type()) == "ConverterGenFunc" {
 				cv := ci.(*ssa.Call)
@@ -566,10 +629,31 @@ func (c *Ctx) containsSuppliedConvs(ib *ssa.Function, s ssa.Value, at ssa.Instru
 		case *ssa.MakeSlice:
 			// must be the destination of copy(dst, b.convs) before the return, with len >= len(b.convs)
 			copied := false
-			core.Instrs(ib, func(in ssa.Instruction) {
+			core.Instrs(x.Parent(), func(in ssa.Instruction) {
 				if cl, isC := in.(*ssa.Call); isC && core.CalleeName(cl.Common()) == "builtin.copy" {
-					if cl.Common().Args[0] == ssa.Value(x) && isConvsField(cl.Common().Args[1]) && core.InstrDominates(cl, at) {
-						copied = true
+					if cl.Common().Args[0] == ssa.Value(x) && isConvsField(cl.Common().Args[1]) {
+						if at.Parent() == cl.Parent() {
+							if core.InstrDominates(cl, at) {
+								copied = true
+							}
+						} else {
+							// the slice is built in a step helper: the copy must precede every return of that helper
+							all := true
+							for _, hr := range core.Returns(x.Parent()) {
+								returnsIt := false
+								for _, o := range hr.Results {
+									for _, sv := range core.Sources(o) {
+										if sv == ssa.Value(x) {
+											returnsIt = true
+										}
+									}
+								}
+								if returnsIt && !core.InstrDominates(cl, hr) {
+									all = false
+								}
+							}
+							copied = all
+						}
 					}
 				}
 			})
